@@ -150,8 +150,9 @@ class SP:
     """Result of `sweep`: value m 2^e, absolute first-order bound b 2^e
     (b already contains the operation counts m_k, not eps)."""
 
-    def __init__(self, m, e, b, eL, tiny, pair, pairmin):
+    def __init__(self, m, e, b, eL, tiny, pair, pairmin, nz=None):
         self.m, self.e, self.b = LD(m), int(e), b
+        self.nz = nz        # left partial product k is not identically zero
         self.pairmin = pairmin   # min_k of the same (non-zero cores)
         self.eL = eL        # log2 max-modulus of every left partial product
         self.tiny = tiny    # min_k log2 max|Lhat_{k-1} T_k|, Lhat max in [1,2)
@@ -182,6 +183,7 @@ def sweep(NY, NX, bound=True):
     v = np.ones((1, 1), dtype=LD)
     L[0] = v
     tiny, pair, pairmin = np.inf, -np.inf, np.inf
+    nz = [True] * (d + 1)
     for k in range(d):
         A, ea = NY[k]
         B, eb = NX[k]
@@ -189,6 +191,7 @@ def sweep(NY, NX, bound=True):
         v = np.tensordot(T1, B, axes=([0, 1], [0, 1]))
         v, ev = _nrm(v)
         L[k + 1] = v
+        nz[k + 1] = bool(np.any(v))
         eL[k + 1] = eL[k] + ea + eb + ev
         if np.any(v):
             # previous L has max in [0.5, 1): teneva's has max in [1, 2)
@@ -198,7 +201,7 @@ def sweep(NY, NX, bound=True):
             pairmin = min(pairmin, ea + eb)
     m, e = v[0, 0], eL[d]
     if not bound:
-        return SP(m, e, None, eL, tiny, pair, pairmin)
+        return SP(m, e, None, eL, tiny, pair, pairmin, nz)
     w = np.ones((1, 1), dtype=LD)
     eR = 0
     tot = LD(0)
@@ -214,7 +217,7 @@ def sweep(NY, NX, bound=True):
         w = np.tensordot(W1, B, axes=([1, 2], [1, 2]))
         w, ew = _nrm(w)
         eR += ea + eb + ew
-    return SP(m, e, tot, eL, tiny, pair, pairmin)
+    return SP(m, e, tot, eL, tiny, pair, pairmin, nz)
 
 
 def got_vs_ref(v, p, s):
@@ -732,6 +735,22 @@ def kf_accuracy(s11, s12, s22):
     if k:
         return k
     d = len(s11.eL) - 1
+    # stab-thr-no-rescale through the block structure: the three blocks share
+    # one scale, set by the largest; when that block becomes exactly zero at
+    # some position (a zero core in one operand) the largest remaining block
+    # may lie at or below 1e-100 = 2^-332 of the old scale and is then handed
+    # on unscaled
+    blocks = [s for s in (s11, s12, s22) if s.nz is not None]
+    if len(blocks) == 3:
+        prev = 0
+        for j in range(1, d + 1):
+            live = [s.eL[j] for s in blocks if s.nz[j]]
+            if not live:
+                break
+            cur = max(live)
+            if prev - cur >= 325:
+                return 'stab-thr-no-rescale'
+            prev = cur
     fin = [s.eL[d] if s.m != 0 else -10 ** 9 for s in (s11, s12, s22)]
     fmax = max(fin)
     for j in range(1, d):
